@@ -23,6 +23,7 @@ EXPLANATION = (
     "stays below the interpreter's default limit of 1000 frames (C11.RECURSION; the cycles themselves are the known "
     "finding K1); a degenerate domain maps every value to the start of the range (C11.DEGENERATE); uni2tex is total "
     "(C19 rules).  Exceptions of other classes (e.g. KeyError from a user timeFn) are not decided."
+    "  Crash lints (rules/crash.py), each firing only on a construct that raises for every input reaching it: GEN.TYPED-ATTRS, GEN.SUPERINIT, GEN.STRARITH, GEN.BUILTIN-ARGS, GEN.DICTKEY, GEN.ATTR-ORDER (attribute typestate of export), GEN.LOCALNONE (with the witness idiom of mostViolated), GEN.SEQINDEX (constant subscripts outside a shape known on that path of the emitter runs), C11.HEXTOTAL / C11.INT2NAME (crash-only readings of the colour and naming helpers), C11.GEOMSET, C11.DATUMKEYS; C11.OPTKEYS also covers removeOverlap's reads of its caller's dict; discharge-table entries that name a guard re-verify it."
 )
 ASSUMPTIONS = ["documented input contracts: density > 0, tick count >= 1, non-empty colour lists, positive weights/scales", "default recursion limit 1000, conflict clusters <= 200 labels"]
 
